@@ -429,6 +429,10 @@ class Case:
     nontrivial: bool = True
     key: str = ""              # distinctness key
     stats: dict = field(default_factory=dict)
+    # optional: a case evaluated by another case module / entry point than the property's own (see harness/parts.py)
+    case_module: str = ""
+    run_fn: str = ""
+    case_vo: str = ""
 
 
 def digest(obj) -> str:
